@@ -39,15 +39,9 @@
 (***************************************************************************)
 EXTENDS Naturals, Sequences, FiniteSets, TLC, Json
 
-CONSTANTS MaxLen,     \* items per layout
-          MaxDepth,   \* nesting depth
-          Forms,      \* statement forms in play (names of FormTab)
-          Decos,      \* decorator lists in play (names of DecoTab)
-          Heads,      \* set of <<lead, mdoc>>: lead in {"none","cmt","bom"}, mdoc = module docstring height
-          Twin,       \* TRUE: the layout is a .pyi stub next to a runtime twin .py
-          InPy,       \* subset of BOOLEAN: may an object exist in the twin (TRUE) / be stub-only (FALSE)
-          AllowLeak,  \* TRUE: allow `if: ...attr` + `else: "string"` (attribute docstring crosses blocks)
-          PyPad,      \* comment lines at the top of the twin (so that its line numbers differ)
+CONSTANTS Domains,    \* names of the domains (DomTab) enumerated in this run
+          Deep,       \* TRUE: the thorough bounds
+          PyPad,      \* comment lines at the top of the runtime twin (so that its line numbers differ)
           Emit
 
 \* ---------------------------------------------------------------------------------------------
@@ -79,7 +73,10 @@ FormTab == [
   asgs2    |-> Fm("attr", 2, FALSE, 0, 0, 0),     asgs2c0  |-> Fm("attr", 2, FALSE, 0, 0, 0),
   asgb2    |-> Fm("attr", 2, FALSE, 0, 0, 0),     ann      |-> Fm("attr", 1, FALSE, 0, 0, 0),
   ann0     |-> Fm("attr", 1, FALSE, 0, 0, 0),     annp3    |-> Fm("attr", 3, FALSE, 0, 0, 0),
-  tup      |-> Two(Fm("attr", 1, FALSE, 0, 0, 0)), chain   |-> Two(Fm("attr", 1, FALSE, 0, 0, 0)),
+  chain    |-> Two(Fm("attr", 1, FALSE, 0, 0, 0)),
+  \* `a, b = 1, 2`: the visitor does not collect unpacking targets (membership is C01's subject) - a
+  \* plain statement here, which must not receive the docstring of a following string either
+  tup      |-> Fm("stmt", 1, FALSE, 0, 0, 0),
   semi     |-> Two(Fm("attr", 1, FALSE, 0, 0, 0)),
   semis2   |-> [Two(Fm("attr", 2, FALSE, 0, 0, 0)) EXCEPT !.a = <<0, 1>>, !.b = <<1, 1>>],
   sasg     |-> Fm("attr", 1, FALSE, 0, 0, 0),     sasgp3   |-> Fm("attr", 3, FALSE, 0, 0, 0),
@@ -121,13 +118,48 @@ DecoTab == [
 ]
 DT(c) == DecoTab[c]
 
-\* head sets for the configurations (tuples cannot be written in a .cfg)
+\* ---------------------------------------------------------------------------------------------
+\* Domains.  A domain fixes the alphabet and the bounds; `may` lists the clauses the transcription of
+\* the code is allowed (expected) to break there - {} = clean domain.  heads: <<lead, mdoc>> with lead
+\* in {"none","cmt","bom"} and mdoc the height of the module docstring.  twin: the layout is a .pyi
+\* stub next to a runtime twin .py; inpy: may an object exist in the twin / be stub-only; leak: allow
+\* `if: ... attr` followed by `else: "string"`.
 HeadsOne == {<<"none", 0>>}
 HeadsQuick == {<<"none", 0>>, <<"cmt", 2>>}
 HeadsAll == {"none", "cmt"} \X {0, 1, 2}
 HeadsBom == {<<"bom", 0>>, <<"bom", 1>>}
-HeadsDefect == HeadsOne \cup HeadsBom
-HeadsDefectDeep == HeadsQuick \cup HeadsBom
+CoreForms == {"defdoc2", "cls", "clsdoc1", "asg", "asgp3", "str1", "if", "else", "cmt", "init", "sasg"}
+               \cup (IF Deep THEN {"def", "fromp4", "defh2", "tup", "with"} ELSE {})
+CleanForms == {"def", "defh2", "defdoc1", "defdoc2", "defdocp3", "defh2doc2", "adef", "def1l", "def1l2", "init",
+               "cls", "clsh3", "clsdoc1", "clsdoc2", "cls1l",
+               "asg", "asgp3", "asgs2", "asgs2c0", "asgb2", "ann", "ann0", "annp3", "tup", "chain", "semi",
+               "semis2", "sasg", "sasgp3", "imp", "imp2", "from", "from2", "fromp4", "fromb2", "star",
+               "if", "ifh2", "for", "with", "withh3", "else", "expr", "exprp2", "str1", "str2", "strp3",
+               "blank", "cmt", "cmt0"}
+MidForms == {"def", "defdoc1", "defdocp3", "def1l2", "init", "cls", "clsh3", "clsdoc2", "asgs2", "asgb2", "ann0",
+             "chain", "semis2", "sasgp3", "imp2", "fromb2", "star", "ifh2", "for", "else", "exprp2", "str2",
+             "strp3", "blank", "cmt0"}
+TwinForms == {"defdoc2", "cls", "clsdoc1", "asg"}
+Dom(forms, decos, heads, maxlen, may) ==
+  [forms |-> forms, decos |-> decos, heads |-> heads, maxlen |-> maxlen, may |-> may,
+   twin |-> FALSE, inpy |-> {TRUE}, leak |-> FALSE]
+DomTab == [
+  core   |-> Dom(CoreForms, {"none", "d1d2"}, HeadsOne, IF Deep THEN 4 ELSE 3, {}),
+  wide   |-> Dom(CleanForms, IF Deep THEN {"none", "d1", "d1d1", "d2", "d1d2"} ELSE {"none", "d2"},
+                 IF Deep THEN HeadsAll ELSE {<<"cmt", 2>>}, 2, {}),
+  mid    |-> Dom(MidForms, {"none", "d1d1"}, {<<"cmt", 1>>}, 3, {}),
+  breaks |-> Dom({"def", "cls", "asg", "str1", "cmt", "ff", "cmtls", "asgnel"}, {"none"}, HeadsOne, 3, {"text"}),
+  decos  |-> Dom({"def", "cls", "asg"} \cup (IF Deep THEN {"defdoc1", "clsdoc2", "cmt"} ELSE {}),
+                 {"none", "d1", "dp", "prop", "d1prop"}, HeadsOne, 3, {"span"}),
+  leak   |-> [Dom({"if", "for", "else", "asg", "str1"} \cup (IF Deep THEN {"cls", "tup", "cmt"} ELSE {}), {"none"},
+                  HeadsOne, IF Deep THEN 5 ELSE 4, {"doc"})
+                EXCEPT !.leak = TRUE],
+  bom    |-> Dom({"def", "asg", "cls"}, {"none"}, HeadsBom, 2, {"load"}),
+  twin   |-> [Dom(TwinForms \cup (IF Deep THEN {"def", "cmt", "defh2", "ann0", "asgp3"} ELSE {}), {"none", "d1"},
+                  {<<"none", 1>>} \cup (IF Deep THEN {<<"cmt", 0>>} ELSE {}), 3, {}) EXCEPT !.twin = TRUE],
+  twinx  |-> [Dom(TwinForms, {"none", "d1"}, HeadsOne, IF Deep THEN 3 ELSE 2, {"file", "text"})
+                EXCEPT !.twin = TRUE, !.inpy = {TRUE, FALSE}]
+]
 
 K(it) == FT(it.f).k
 IsFiller(it) == K(it) = "filler"
@@ -138,7 +170,8 @@ Decorable(f) == FT(f).k \in {"func", "class"} /\ f # "init"
 SelfForms == {"sasg", "sasgp3"}
 
 \* ---------------------------------------------------------------------------------------------
-VARIABLES head,    \* <<lead, mdoc>>
+VARIABLES dom,     \* the domain of this layout (fixed by Init)
+          head,    \* <<lead, mdoc>>
           items,   \* the outline: sequence of [f, dc, d, py, pd]
           pl,      \* placement of every item (stub / only file) + its context + placement in the twin
           cur,     \* next free line (CPython numbering) of the file
@@ -146,8 +179,16 @@ VARIABLES head,    \* <<lead, mdoc>>
           brk,     \* lines on which str.splitlines() breaks and CPython does not
           stack,   \* open blocks: sequence of [i, c] (item index, context of its children)
           ref, impl
-vars == <<head, items, pl, cur, cur2, brk, stack, ref, impl>>
+vars == <<dom, head, items, pl, cur, cur2, brk, stack, ref, impl>>
 
+Dm == DomTab[dom]
+MaxLen == Dm.maxlen
+MaxDepth == 2
+Forms == Dm.forms
+Decos == Dm.decos
+Twin == Dm.twin
+InPy == Dm.inpy
+AllowLeak == Dm.leak
 Lead == head[1]
 MDoc == head[2]
 LeadLines == IF Lead = "cmt" THEN 1 ELSE 0
@@ -180,7 +221,8 @@ ChildCtx(ctx, f, n, epy) ==
   ELSE [ctx EXCEPT !.py = epy]
 
 Init ==
-  /\ head \in Heads
+  /\ dom \in Domains
+  /\ head \in DomTab[dom].heads
   /\ items = <<>> /\ pl = <<>> /\ brk = {} /\ stack = <<>>
   /\ cur = 1 + (IF head[1] = "cmt" THEN 1 ELSE 0) + head[2] + 1
   /\ cur2 = 1 + PyPad + 1
@@ -318,7 +360,7 @@ Write(f, dc, d, py, pd) ==
   /\ stack' = SubSeq(stack, 1, d) \o (IF F.body THEN <<[i |-> n, c |-> ChildCtx(ctx, f, n, epy)]>> ELSE <<>>)
   /\ ref' = Objs(head, its1, pl1, bk1, TRUE)
   /\ impl' = Objs(head, its1, pl1, bk1, FALSE)
-  /\ UNCHANGED head
+  /\ UNCHANGED <<dom, head>>
 
 Next == \E f \in Forms, dc \in Decos, d \in 0..MaxDepth, py \in InPy, pd \in BOOLEAN : Write(f, dc, d, py, pd)
 Spec == Init /\ [][Next]_vars
@@ -350,12 +392,20 @@ RefNested ==
      /\ (r.dlo # 0 /\ r.k = "attribute" /\ K(items[r.it]) = "attr" => r.dlo > r.hi)
      /\ \A c \in ref : (c.it # 0 /\ Len(c.p) > 0 /\ c.p[Len(c.p)] = r.it /\ c.file = r.file)
                           => (r.lo < c.lo /\ c.hi <= r.hi)
+\* what a run checks: in every domain the transcription may break only the clauses listed in `may`
+Holds(c, P) == (c \notin Dm.may) => P
+ClauseSpan == Holds("span", SpanExact)
+ClauseDoc == Holds("doc", DocExact)
+ClauseText == Holds("text", TextExact)
+ClauseFile == Holds("file", FileExact)
+ClauseLoad == Holds("load", Loadable)
+
 RefDisjoint ==
   \A r, c \in ref : (r.it # 0 /\ c.it # 0 /\ r.it < c.it /\ r.p = c.p /\ r.file = c.file
                      /\ pl[r.it].sk = pl[c.it].sk) => r.hi < c.lo
 
 EmitCase ==
   (Emit /\ Complete /\ items # <<>>) =>
-     PrintT(<<"CASE", ToJson([head |-> head, items |-> items, ref |-> ref, implx |-> impl \ ref,
+     PrintT(<<"CASE", ToJson([dom |-> dom, head |-> head, items |-> items, ref |-> ref, implx |-> impl \ ref,
                               brk |-> brk, lines |-> cur - 1, lines2 |-> cur2 - 1, twin |-> Twin])>>)
 =============================================================================
